@@ -464,6 +464,23 @@ def evaluate(case, info=None):
         loadable = all(not isinstance(getattr(m, "ctx", None), (ast.Store, ast.Del)) for m in free)
         if not noop and loadable and isinstance(free[0], ast.stmt) == (p.kind == "statement") and replacing_is_valid(source, free[0], repl, p):
             fail("match-not-replaced", f"{len(free)} un-ignored reference matches, nothing replaced")
+    # several matches on pairwise different lines, none ignored, each replaceable on its own: all of them must be replaced
+    if p.kind != "sequence" and count == 0 and len(free) >= 2 and len(free) == len(ref_matches) and "\n" not in repl.strip():
+        spans = sorted((m.lineno, m.end_lineno) for m in free)
+        if all(a[1] < b[0] for a, b in zip(spans, spans[1:])) and len(applied) < len(free):
+            def replaceable(m):
+                if safe_instantiate(repl, bindings_of(p, m)) is None:
+                    return False
+                exprs, stmts = instantiate(repl, bindings_of(p, m))
+                noop = (exprs and dump(exprs[0]) == dump(m)) or (len(stmts) == 1 and dump(stmts[0]) == dump(m))
+                loadable = not isinstance(getattr(m, "ctx", None), (ast.Store, ast.Del))
+                return not noop and loadable and isinstance(m, ast.stmt) == (p.kind == "statement") and replacing_is_valid(source, m, repl, p)
+            try:
+                ok = all(replaceable(m) for m in free)
+            except IllTyped:
+                ok = False
+            if ok:
+                fail("some-matches-not-replaced", f"{len(free)} un-ignored matches on different lines, {len(applied)} replaced\n--- output\n{out[:900]}")
     # untouched lines
     touched = set()
     for m in ref_matches:
